@@ -142,10 +142,28 @@ func (s *Surface) Fill(style vaxis.Style) {
 
 func (s Surface) render(win vaxis.Window, focused Widget) {
 	// Render ourself first
+	under := 0
 	for i, cell := range s.Buffer {
 		row := i / int(s.Size.Width)
 		col := i % int(s.Size.Width)
+		if col == 0 {
+			under = 0
+		}
+		if under > 0 {
+			// The cell is a part of the wide character before it:
+			// setting it would take it from that character
+			under -= 1
+			continue
+		}
 		win.SetCell(col, row, cell)
+		width := cell.Width
+		if width == 0 && cell.Grapheme != "" {
+			// The width was left for Vaxis to measure
+			width = win.Vx.RenderedWidth(cell.Grapheme)
+		}
+		if width > 1 {
+			under = width - 1
+		}
 	}
 
 	// If we have a cursor state and we are the focused widget, draw the
